@@ -13,19 +13,21 @@ EXTENDS PropsAll, MCChars, Json
 
 CONSTANTS Alphabet, MaxLen, Limits, Splitters
 
-VARIABLES s, pc, lim, splitter, i, off, width, st, out, pieces
-vars == <<s, pc, lim, splitter, i, off, width, st, out, pieces>>
+VARIABLES s, pc, lim, splitter, inpen, i, off, width, st, out, pieces
+vars == <<s, pc, lim, splitter, inpen, i, off, width, st, out, pieces>>
 
-Wd == MkWord(s, 1, Len(s) + 1)          \* the whole typed string as one word (it may end in spaces)
+\* the whole typed string as one word (it may end in spaces), carrying a penalty of its own when it is
+\* itself a piece of an earlier split
+Wd == [MkWord(s, 1, Len(s) + 1) EXCEPT !.pen = inpen]
 
-Init == /\ s = <<>> /\ pc = "type" /\ lim = 0 /\ splitter = "none" /\ i = 1 /\ off = 1 /\ width = 0 /\ st = "T"
+Init == /\ s = <<>> /\ pc = "type" /\ lim = 0 /\ splitter = "none" /\ inpen = 0 /\ i = 1 /\ off = 1 /\ width = 0 /\ st = "T"
         /\ out = <<>> /\ pieces = <<>>
 Type(c) == pc = "type" /\ Len(s) < MaxLen /\ (c = SP => (Len(s) > 0)) /\ s' = Append(s, c)
-           /\ UNCHANGED <<pc, lim, splitter, i, off, width, st, out, pieces>>
-Begin(l, sp) ==
+           /\ UNCHANGED <<pc, lim, splitter, inpen, i, off, width, st, out, pieces>>
+Begin(l, sp, ip) ==
   /\ pc = "type" /\ (\A j \in 1..Len(s) : s[j] = SP => \A j2 \in j..Len(s) : s[j2] = SP)    \* spaces only at the end
-  /\ lim' = l /\ splitter' = sp
-  /\ pieces' = SplitWordAt(s, Wd, SplitPts(s, Wd, sp))
+  /\ lim' = l /\ splitter' = sp /\ inpen' = ip
+  /\ pieces' = LET wd == [MkWord(s, 1, Len(s) + 1) EXCEPT !.pen = ip] IN SplitWordAt(s, wd, SplitPts(s, wd, sp))
   /\ pc' = "break" /\ UNCHANGED <<s, i, off, width, st, out>>
 \* one iteration of `while let Some((idx, ch)) = char_indices.next()`
 BreakStep ==
@@ -36,12 +38,12 @@ BreakStep ==
           THEN /\ out' = Append(out, [a |-> off, e |-> i, b |-> i, pen |-> 0, w |-> width])
                /\ off' = i /\ width' = W(s[i])
           ELSE width' = width + W(s[i]) /\ UNCHANGED <<off, out>>
-  /\ i' = i + 1 /\ UNCHANGED <<s, pc, lim, splitter, pieces>>
+  /\ i' = i + 1 /\ UNCHANGED <<s, pc, lim, splitter, inpen, pieces>>
 BreakEnd ==
   /\ pc = "break" /\ i >= Wd.e
   /\ out' = (IF off < Wd.e THEN Append(out, [a |-> off, e |-> Wd.e, b |-> Wd.b, pen |-> Wd.pen, w |-> width]) ELSE out)
-  /\ pc' = "done" /\ UNCHANGED <<s, lim, splitter, i, off, width, st, pieces>>
-Next == (\E c \in Alphabet : Type(c)) \/ (\E l \in Limits, sp \in Splitters : Begin(l, sp)) \/ BreakStep \/ BreakEnd
+  /\ pc' = "done" /\ UNCHANGED <<s, lim, splitter, inpen, i, off, width, st, pieces>>
+Next == (\E c \in Alphabet : Type(c)) \/ (\E l \in Limits, sp \in Splitters, ip \in {0, 1} : Begin(l, sp, ip)) \/ BreakStep \/ BreakEnd
 Spec == Init /\ [][Next]_vars
 
 ToLogged(str, wd) ==
@@ -60,5 +62,5 @@ BreakInv == pc = "break" => /\ off <= i /\ st = Pre(SubSeq(s, 1, Wd.e - 1))[i]
 PropBreak == pc = "done" => AllOk(Judge_break(EvBreak))
 PropSplit == pc = "done" => AllOk(Judge_split(EvSplit))
 Emit == pc = "done" => /\ PrintT(<<"REPLAY", ToJson([k |-> "break", kind |-> "apart", s |-> s, lim |-> lim])>>)
-                       /\ PrintT(<<"REPLAY", ToJson([k |-> "split", splitter |-> splitter, s |-> s])>>)
+                       /\ PrintT(<<"REPLAY", ToJson([k |-> "split", splitter |-> splitter, pre |-> (IF inpen = 1 THEN "every2" ELSE "none"), s |-> s])>>)
 =============================================================================
